@@ -1,0 +1,10 @@
+//go:build verif
+// +build verif
+
+package token
+
+// VerifState exposes the allocator state (next free index, block length)
+// to the verification harness. Only built with -tags verif.
+func (p *Pool) VerifState() (off int, size int) {
+	return p.off, len(p.block)
+}
